@@ -1677,6 +1677,11 @@ type c14Case struct {
 	lexGo, lexHit      lexT
 	soft, hard         int64 // helper values for the mover
 	// input arriving while the (timed, no longer pondering) search runs
+	// how the mock search behaves (both are what the real search does): it plays moves IN PLACE on the
+	// driver's board, so at any moment the board may be at an odd ply (side to move flipped); and it looks
+	// at the ponderhit channel only between iterations, i.e. possibly long after the ponderhit
+	oddPly    bool
+	hitReadMs int      // ponder_hit: the mock reads the ponderhit channel this long after it was entered (0: at once)
 	chat      string   // "" | isready | unknown | debug | setoption | ponderhit | blank | mixed
 	chatIv    string   // once | hard/4 | hard/2 | 2*hard: the first line right away, then at this interval
 	chatLines []string // written cyclically
@@ -1719,6 +1724,9 @@ func (c *c14Case) ownOps() []string {
 		ops = append(ops, fmt.Sprintf("send:%q", c.lexSet.apply(l)))
 	}
 	ops = append(ops, fmt.Sprintf("send:%q", c.lexPos.apply(c.pos.text)), fmt.Sprintf("send:%q", c.lexGo.apply(c.goLine)))
+	if c.oddPly || c.hitReadMs > 0 {
+		ops = append(ops, fmt.Sprintf("mock search: null move made on the driver's board while it runs = %v; reads the ponderhit channel %d ms after its start", c.oddPly, c.hitReadMs))
+	}
 	switch c.variant {
 	case "ponder_hit":
 		ops = append(ops, fmt.Sprintf("sleep_ms:%d", c.ponderMs), fmt.Sprintf("send:%q", c.lexHit.apply("ponderhit")))
@@ -1875,6 +1883,15 @@ func genC14(rng *rand.Rand, id int, maxHard int64, variant string) c14Case {
 		}
 		c.goLine = strings.Join(append([]string{"go"}, parts...), " ")
 		c.lexSet, c.lexPos, c.lexGo, c.lexHit = genLex(rng), genLex(rng), genLex(rng), genLex(rng)
+		c.oddPly = rng.IntN(2) == 0
+		if c.variant == "ponder_hit" {
+			switch rng.IntN(40) {
+			case 0, 11, 12, 13, 14, 15, 16, 17, 18, 19: // a long iteration: longer than the tolerance of the deadline assertion
+				c.hitReadMs = c.ponderMs + int(c14Late.Milliseconds()) + 1500
+			case 1, 2, 3, 4, 5, 6, 7, 8, 9, 10:
+				c.hitReadMs = c.ponderMs + pick(rng, 1, 10, int(c.hard/2), int(c.hard), int(2*c.hard))
+			}
+		}
 		return c
 	}
 }
@@ -1948,23 +1965,37 @@ type c14Enter struct {
 type c14Mock struct {
 	entered chan c14Enter
 	closed  chan time.Time
+	// behaviour of the next search (set by the session before the go is written)
+	oddPly    atomic.Bool
+	hitReadMs atomic.Int64
 }
 
 func (m *c14Mock) Clear()       {}
 func (m *c14Mock) ResizeTT(int) {}
 
-func (m *c14Mock) Go(_ *board.Board, opts ...search.Option) (Score, move.Move, move.Move) {
+func (m *c14Mock) Go(b *board.Board, opts ...search.Option) (Score, move.Move, move.Move) {
 	var o search.Options
 	for _, opt := range opts {
 		opt(&o)
 	}
-	m.entered <- c14Enter{soft: o.SoftTime, hasHit: o.PonderHit != nil}
+	if m.oddPly.Load() {
+		// like the real search, work in place on the driver's board: one ply down while the search runs
+		r := b.MakeNullMove()
+		defer b.UndoNullMove(r)
+	}
+	var phAt <-chan time.Time // until it fires the ponderhit channel is not looked at (a running iteration)
 	ph := o.PonderHit
+	if d := m.hitReadMs.Load(); d > 0 && ph != nil {
+		phAt, ph = time.After(time.Duration(d)*time.Millisecond), nil
+	}
+	m.entered <- c14Enter{soft: o.SoftTime, hasHit: o.PonderHit != nil}
 	for {
 		select {
 		case <-o.Stop:
 			m.closed <- time.Now()
 			return 0, move.From(E2) | move.To(E4), 0
+		case <-phAt:
+			phAt, ph = nil, o.PonderHit
 		case <-ph:
 			ph = nil
 		}
@@ -2056,6 +2087,8 @@ func (s *c14Sess) run(c *c14Case) (fail string, lateMs int64) {
 		s.write(c.lexSet.apply(l))
 	}
 	s.write(c.lexPos.apply(c.pos.text))
+	s.mock.oddPly.Store(c.oddPly)
+	s.mock.hitReadMs.Store(int64(c.hitReadMs))
 	t0 := time.Now()
 	s.write(c.lexGo.apply(c.goLine))
 	var en c14Enter
@@ -2224,6 +2257,18 @@ func suiteC14(ctx *common.Ctx, workers int) {
 		opt := "|Ponder_option_" + map[bool]string{true: "on", false: "off"}[c.optOn]
 		res.Count("c14["+c.class+"|"+c.variant+opt+"]", 1)
 		res.Count("c14_side["+side+"|"+c.variant+"]", 1)
+		if c.variant != "untimed_stopped" {
+			hr := "at once"
+			if c.hitReadMs > c.ponderMs+int(c14Late.Milliseconds()) {
+				hr = "after a long iteration (> 3 s)"
+			} else if c.hitReadMs > 0 {
+				hr = "after a short iteration"
+			}
+			if c.variant != "ponder_hit" {
+				hr = "n/a"
+			}
+			res.Count(fmt.Sprintf("c14_mock[board at odd ply=%v|ponderhit read %s|%s]", c.oddPly, hr, c.variant), 1)
+		}
 		res.Count("c14_session[previous="+c.prev+"|"+c.variant+opt+"]", 1)
 		if len(c.pre) > 1 {
 			res.Count("c14_state_changes_before_search[>=2 lines|"+c.variant+opt+"]", 1)
